@@ -378,6 +378,24 @@ def step (line : String) : String :=
       let r := iterRun k (Dyn.allFunctions n) 0 14695981039346656037
       s!"ok {r.1} {showHexNat r.2.1} {showBool r.2.2}"
     | _, _ => "bad-op")
+  | ["itera", _, n, a, kind, b] =>
+    (match n.toNat?, a.toNat?, b.toNat? with
+    | some n, some a, some b =>
+      let it := (Dyn.allFunctions n).advance a
+      let sh (o : Option Lut) : String := match o with | some l => showTab l | none => "none"
+      let fuel := 2 ^ (2 ^ n) + 1
+      (match kind with
+      | "nth" | "skip" => let r := it.nth b; s!"ok {sh r.1} {sh r.2.next.1}"
+      | "stepby" => "ok " ++ " ".intercalate ((it.stepBy b 5 true).map sh)
+      | "count" => let r := it.rest fuel; s!"ok {r.1.length} {sh r.2.next.1}"
+      | "last" => let r := it.rest fuel; s!"ok {sh r.1.getLast?} {sh r.2.next.1}"
+      | "max" => let r := it.rest fuel; s!"ok {sh (Dyn.maxOf r.1)} {sh r.2.next.1}"
+      | "min" => let r := it.rest fuel; s!"ok {sh (Dyn.minOf r.1)} {sh r.2.next.1}"
+      | "fold" => let r := it.rest fuel
+        s!"ok {showHexNat (r.1.foldl (fun h l => l.t.foldl digestStep h) 14695981039346656037)} {sh r.2.next.1}"
+      | "hint" => "ok 1"
+      | _ => "bad-op")
+    | _, _, _ => "bad-op")
   | ["tohex", _, tab] => (match parseTab tab with
     | some l => "ok " ++ showBytes (Dyn.toHexString l) | _ => "bad-op")
   | ["tobin", _, tab] => (match parseTab tab with
